@@ -278,9 +278,9 @@ def run(ctx: Ctx) -> None:
             if variant == "code" and guess == "standard":
                 continue  # the code no longer follows the product-sign limiter: that model run would be idle
             res = run_tlc("MCPchip", None, workdir=ctx.work, name=f"mc_{cname}_{variant}", cfg_text=cfg_text(c, variant, True, True),
-                          coverage=(cname == names[0] and variant == "code"))
+                          coverage=(cname == names[0] and variant == ("standard" if guess == "standard" or cname in QUICK_STD or not ctx.quick else "code")))
             ctx.add_tlc(res)
-            if res.get("coverage_zero"):
+            if res.get("coverage_zero") and not res["violated"]:  # a run stopped by a counter-example is not a coverage statement
                 ctx.notes.append(f"{cname}/{variant}: spec actions never taken: {res['coverage_zero']}")
             model_verdict[(cname, variant)] = [v[1] for v in res["violated"]]
             if variant == "standard" and res["violated"]:
@@ -326,7 +326,8 @@ def run(ctx: Ctx) -> None:
         ctx.case(("tlc", [str(v) for v in h], [str(v) for v in y]), nontrivial=nontrivial,
                  sample={"h": [str(v) for v in h], "y": [str(v) for v in y], "model_code_slopes": [str(v) for v in mv.get("code", ())], "real_slopes": r["slopes"]})
         ctx.traces_validated += 1
-        worst_margin = max(worst_margin, r["margin"])
+        if not r["failures"]:
+            worst_margin = max(worst_margin, r["margin"])
         if r["slopes"] is not None:
             for variant in ("standard", "code"):
                 if variant in mv:
@@ -372,12 +373,13 @@ def run(ctx: Ctx) -> None:
         tag = it[0]
         strata[f"{tag[1]}/{tag[2]}"] = strata.get(f"{tag[1]}/{tag[2]}", 0) + 1
         ctx.case(("rand", tag[1], tag[2], tag[3], tag[4]), nontrivial=len(it[1]) >= 3)
-        worst_margin = max(worst_margin, r["margin"])
         if r["failures"]:
             report(ctx, r, it[1], it[2], f"random data {tag[1]}/{tag[2]} n={tag[3]}")
+        else:
+            worst_margin = max(worst_margin, r["margin"])
     ctx.sample({"random_case": {"grid": rcases[0][0][1], "values": rcases[0][0][2], "n": rcases[0][0][3], "x": rcases[0][1][:5], "y": rcases[0][2][:5]}})
     ctx.coverage["strata_random"] = strata
-    ctx.coverage["worst_margin_err_over_budget_on_passing_points"] = worst_margin
+    ctx.coverage["worst_margin_err_over_budget_on_clean_data_sets"] = worst_margin
     ctx.coverage["rule"] = ("exhaustive: one case per TLC-enumerated data set (h, y) (non-trivial: >= 3 knots), each replayed into the real PCHIP1D; "
                             "random: one case per (grid kind, value kind, n, index)")
     ctx.coverage["exhaustive"] = True
